@@ -22,9 +22,11 @@ from gen import coverage as G
 
 ID = "C05"
 PROPS = ["IsoVerif/Props/C05.lean", "IsoVerif/Props/C05Multi.lean", "IsoVerif/Props/C05Printers.lean",
-         "IsoVerif/Props/C05Edge.lean", "IsoVerif/Props/C05Contigs.lean", "IsoVerif/Props/C05Names.lean"]
+         "IsoVerif/Props/C05Edge.lean", "IsoVerif/Props/C05Contigs.lean", "IsoVerif/Props/C05Names.lean",
+         "IsoVerif/Props/C05Headers.lean", "IsoVerif/Props/C05Intergenic.lean"]
 TARGETS = ["IsoVerif.Props.C05", "IsoVerif.Props.C05Multi", "IsoVerif.Props.C05Printers", "IsoVerif.Props.C05Edge",
-           "IsoVerif.Props.C05Contigs", "IsoVerif.Props.C05Names"]
+           "IsoVerif.Props.C05Contigs", "IsoVerif.Props.C05Names", "IsoVerif.Props.C05Headers",
+           "IsoVerif.Props.C05Intergenic"]
 GEN_DEPS = ["Prims", "Constants", "Enums", "EventClasses", "PrinterTables"]
 LEVEL = "proof"
 RULE = ("synthetic coverage dictionaries (bin counts 1..520 around the 128-bin minimum, thresholds at the 1 % boundary, "
@@ -132,6 +134,9 @@ class FakeBam:
 
     def get_reference_length(self, chr_id):
         return 10 ** 12
+
+    def get_tid(self, chr_id):
+        return 0
 
     def reset(self):
         pass
@@ -517,6 +522,14 @@ def _correspondence(ctx):
     # 7. experiments made of several BAM files (Model/RegionsMulti.lean)
     from props import C05multi
     C05multi.correspondence(ctx)
+    # 7b. files whose headers differ (other length, sequence not listed, other order) + a FASTA record shorter than the
+    #     headers say (Model/ChromHeaders.lean, Props/C05Headers.lean)
+    from props import C05headers
+    C05headers.correspondence(ctx)
+    # 7c. the filters of process_intergenic in the order of the code: exon count of the alignment, not of the trimmed list
+    #     (Model/IntergenicFilter.lean, Props/C05Intergenic.lean)
+    from props import C05intergenic
+    C05intergenic.correspondence(ctx)
     # 8. the read-level printers and the merge of their per-chromosome files (Props/C05Printers.lean): the real
     #    composite printer on generated records, the generated event-name table, merge_files (props/C15print.py)
     from props import C15print
@@ -866,7 +879,7 @@ def _oracle(ctx, disagreements, broken):
     from props import C15print
     C15print.oracle(ctx)
     # 1. seeded with the disagreeing inputs
-    for d in [x for x in disagreements if x["op"] not in ("collect_raw", "raw_stats", "bed_lines")][:40]:
+    for d in [x for x in disagreements if x["op"] not in ("collect_raw", "raw_stats", "bed_lines", "C05.intergenic_records")][:40]:
         inp = d["input"]
         alns = None
         if isinstance(inp, dict) and "alns" in inp and isinstance(inp["alns"], list) and inp["alns"]:
@@ -962,6 +975,10 @@ def _oracle(ctx, disagreements, broken):
     # 4. experiments made of several BAM files
     from props import C05multi
     C05multi.oracle(ctx, disagreements, broken)
+    from props import C05headers
+    C05headers.oracle(ctx, disagreements, broken)
+    from props import C05intergenic
+    C05intergenic.oracle(ctx, disagreements, broken)
     # 5. records the pipeline must digest, twin BED lines, repeated names, MAPQ 0..5 (props/C05edge.py)
     from props import C05edge
     C05edge.oracle(ctx, disagreements, broken)
@@ -1013,6 +1030,12 @@ def _replay(ctx, failure):
     if str(inp.get("level", "")).startswith("edge"):
         from props import C05edge
         return C05edge.replay(ctx, failure)
+    if str(inp.get("level", "")).startswith("intergenic"):
+        from props import C05intergenic
+        return C05intergenic.replay(ctx, failure)
+    if str(inp.get("level", "")).startswith("multi_headers"):
+        from props import C05headers
+        return C05headers.replay(ctx, failure)
     if str(inp.get("level", "")).startswith("multi"):
         from props import C05multi
         return C05multi.replay(ctx, failure)
